@@ -324,7 +324,9 @@ namespace AIToolbox::MDP {
         rewards_(s, a) = experience_.getReward(s, a);
 
         if ( visitSum == 1ul ) {
-            transitions_[a](s, s) = 0.0;
+            // First data point for this pair (possibly after the Experience
+            // has been reset): drop whatever the row contained.
+            transitions_[a].row(s).setZero();
             transitions_[a](s, s1) = 1.0;
         } else {
             const double newVisits = static_cast<double>(experience_.getVisits(s, a, s1));
